@@ -577,7 +577,7 @@ func (s *UtxoStore) VerifWF() bool { return s != nil && s.bucketMeta != nil }
 //@   nopanic off
 //@   requires s != nil && s.bucketMeta != nil && tx != nil && rec != nil
 //@   modifies *
-//@   ignore Amount).Add
+//@   ignore Amount).Add deleteUnminedGameHistory putGameHistory
 //@   at "addrV = valueAddressRecord(addrRecord)" assert[C12] addrV == nil || readAddressHeight(addrV) == 0
 
 // ---- C01 (rollback lemma): when a rolled-back transaction's debit is undone, the unspent marker re-created for the
@@ -787,3 +787,114 @@ func (s *UtxoStore) VerifWF() bool { return s != nil && s.bucketMeta != nil }
 //@   trusted
 //@   requires[C17] syncHeight == ghostu64("syncHeightOf", tx)
 //@   modifies *
+
+// ---------------------------------------------------------------------------------------------
+// Sync bucket (C01/C17: the height the wallet is synchronised to; C18: errors; C19: no panic).
+// Keys: 8-byte big-endian height -> hash(32) | time(4); the name "syncedto" -> 8-byte height of the newest entry.
+// syncWF: the value under the name has its 8 bytes (only putSyncedTo / resetSyncedTo write it).  A height whose
+// big-endian bytes spell "syncedto" (8320803159725601903) would collide with the name and is excluded.
+//@ define syncWF(b) = (has(bmap(b), syncedToName) ==> len(bmap(b)[syncedToName]) == 8)
+//@ func fetchSyncedBlock
+//@   props C01 C17 C18 C19
+//@   requires bucket != nil
+//@   ensures err != nil ==> result0 == nil
+//@   ensures result0 != nil ==> fresh(result0) && result0.Height == height
+
+//@ func fetchSyncedTo
+//@   props C01 C17 C18 C19
+//@   requires bucket != nil && syncWF(bucket)
+//@   ensures err != nil ==> result0 == nil
+//@   ensures[C17] result0 != nil ==> has(bmap(bucket), syncedToName) && result0.Height == be64(bmap(bucket)[syncedToName], 0)
+
+//@ func putSyncedBucket
+//@   props C01 C18 C19
+//@   requires bucket != nil && bs != nil
+//@   modifies bmap(bucket)
+//@   ensures err != nil ==> bsame(bucket)
+//@   ensures bs.Height != 8320803159725601903 && old(syncWF(bucket)) ==> syncWF(bucket)
+//@   ensures bs.Height != 8320803159725601903 ==> has(bmap(bucket), syncedToName) == old(has(bmap(bucket), syncedToName)) && bmap(bucket)[syncedToName] == old(bmap(bucket)[syncedToName])
+
+//@ func putSyncedTo
+//@   props C01 C17 C18 C19
+//@   requires bucket != nil && bs != nil && bs.Height < 8320803159725601902
+//@   modifies bmap(bucket)
+//@   ensures[C17] err == nil ==> has(bmap(bucket), syncedToName) && len(bmap(bucket)[syncedToName]) == 8 && be64(bmap(bucket)[syncedToName], 0) == bs.Height
+
+// resetSyncedTo walks the heights above the target down (terminates: cur decreases) and never panics
+//@ func resetSyncedTo
+//@   props C01 C18 C19
+//@   requires bucket != nil
+//@   modifies bmap(bucket)
+//@   loop#1 invariant len(k) == 8 && fresh(k)
+//@   loop#1 decreases mathint(cur)
+
+// ---------------------------------------------------------------------------------------------
+// C18/C19: the remaining one-call bucket helpers.  A write either succeeds with exactly its effect on the one key or
+// returns an error with the bucket unchanged; a storage error is never swallowed; lookups report presence faithfully.
+//@ func putRawUnspent
+//@   props C01 C18 C19
+//@   requires ns != nil
+//@   modifies bmap(ns)
+//@   ensures len(k) != 78 || len(v) != 40 ==> err != nil
+//@   ensures err == nil ==> bhas(ns, k) && bval(ns, k) == strOf(v) && bsameExcept(ns, k)
+//@   ensures err != nil ==> bsame(ns)
+//@ func deleteRawDebit
+//@   props C01 C18 C19
+//@   requires ns != nil
+//@   modifies bmap(ns)
+//@   ensures err == nil && len(k) > 0 ==> !bhas(ns, k) && bsameExcept(ns, k)
+//@   ensures err != nil || len(k) == 0 ==> bsame(ns)
+//@ func putRawAddressRecord
+//@   props C12 C18 C19
+//@   requires ns != nil
+//@   modifies bmap(ns)
+//@   ensures err == nil ==> len(k) > 0 && len(v) > 0 && bhas(ns, k) && bval(ns, k) == strOf(v) && bsameExcept(ns, k)
+//@   ensures err != nil ==> bsame(ns)
+//@ func existsRawAddressRecord
+//@   props C12 C18 C19
+//@   requires ns != nil
+//@   ensures err != nil ==> result == nil
+//@   ensures err == nil && len(k) > 0 ==> (result != nil) == bhas(ns, k)
+//@   ensures result != nil ==> len(result) > 0 && strOf(result) == bval(ns, k)
+//@ func deleteRawAddressRecord
+//@   props C12 C18 C19
+//@   requires ns != nil
+//@   modifies bmap(ns)
+//@   ensures err == nil && len(k) > 0 ==> !bhas(ns, k) && bsameExcept(ns, k)
+//@   ensures err != nil || len(k) == 0 ==> bsame(ns)
+//@ func deleteMinedBalance
+//@   props C08 C18 C19
+//@   requires ns != nil
+//@   modifies bmap(ns)
+//@   ensures err != nil || len(account) == 0 ==> bsame(ns)
+//@   ensures[C08] err == nil && len(account) > 0 ==> !has(bmap(ns), account) && sameMapExcept(bmap(ns), account)
+//@ func putGameHistory
+//@   props C10 C18 C19
+// (a wallet id longer than 42 bytes would overwrite the flag bytes of the key: wallet ids are 42 characters)
+//@   requires ns != nil && history != nil && len(history.walletId) == 42
+//@   modifies bmap(ns)
+//@   ensures err != nil ==> bsame(ns)
+//@   at "return ns.Put(k, v)" assert[C10] len(k) == 88 && mathint(k[43]) == b2i(history.withdrawn) && mathint(k[42]) == b2i(history.isBinding) && be64(k, 76) == history.blockHeight
+//@ func putUnminedGameHistory
+//@   props C10 C18 C19
+//@   requires ns != nil && history != nil
+//@   modifies bmap(ns)
+//@   ensures err != nil ==> bsame(ns)
+//@ func deleteUnminedGameHistory
+//@   props C10 C18 C19
+//@   requires ns != nil && history != nil
+//@   modifies bmap(ns)
+//@   ensures err != nil ==> bsame(ns)
+// the mined location record of a transaction: file(4) | offset(8) | length(8) | txStart(4) | txLen(4) under
+// hash(32) | height(8) | block hash(32)
+//@ func putTxRecord
+//@   props C01 C18 C19
+//@   requires ns != nil && rec != nil && block != nil && rec.TxLoc != nil && block.Loc != nil
+//@   modifies bmap(ns)
+//@   ensures err != nil ==> bsame(ns)
+//@   at "if err := ns.Put(k, buf); err != nil {..." assert[C01] len(k) == 72 && bytesEq(k, 0, rec.Hash, 0, 32) && be64(k, 32) == block.Height && len(buf) == 28 && be32(buf, 0) == block.Loc.File && be64(buf, 4) == block.Loc.Offset && be64(buf, 12) == block.Loc.Length
+//@ func existsTxRecord
+//@   props C01 C19
+//@   requires ns != nil && txHash != nil && block != nil
+//@   ensures len(k) == 72 && fresh(k) && bytesEq(k, 0, txHash, 0, 32) && be64(k, 32) == block.Height
+//@   ensures v != nil ==> bhas(ns, k) && strOf(v) == bval(ns, k)
